@@ -79,9 +79,9 @@ theorem valid_delete (cfg : Cfg) (b : Nat) (st : St) (p : Path) (hv : Valid cfg 
 /-- one `render` of a valid engine equals the cache-less render, and leaves the engine valid -/
 theorem render_valid (cfg : Cfg) (fuel b : Nat) (st : St) (name : Name) (caller : Ctx)
     (hv : Valid cfg b st) :
-    (engineRender cfg fuel st.fs st.cache name caller).1 = renderRef cfg st.fs fuel name cfg.baseCtx caller ∧
+    (engineRender cfg fuel st.fs st.cache name caller).1 = renderRef cfg st.fs fuel false name cfg.baseCtx caller ∧
     Valid cfg b { st with cache := (engineRender cfg fuel st.fs st.cache name caller).2 } := by
-  obtain ⟨e, hc, hb⟩ := renderTemplate_generic cfg st.fs _ (goodInv_valid cfg st.fs b hv.fsBelow) fuel name
+  obtain ⟨e, hc, hb⟩ := renderTemplate_generic cfg st.fs _ (goodInv_valid cfg st.fs b hv.fsBelow) fuel false name
     cfg.baseCtx caller st.cache ⟨hv.coh, hv.cacheBelow⟩
   exact ⟨e, hv.fsBelow, hb, hc⟩
 
@@ -123,7 +123,7 @@ theorem runFresh_eq_ref (cfg : Cfg) (fuel : Nat) (ops : List Op) :
       simp only [runFresh, runRef]
       rw [ih fs]
       congr 1
-      exact (renderTemplate_generic cfg fs _ (goodInv_coh cfg fs) fuel name cfg.baseCtx caller Cache.empty
+      exact (renderTemplate_generic cfg fs _ (goodInv_coh cfg fs) fuel false name cfg.baseCtx caller Cache.empty
         (coh_empty cfg fs)).1
 
 /-- **C17, first sentence.** For every configuration and every history of
@@ -183,7 +183,7 @@ theorem nocache_never_fails (cfg : Cfg) (fuel : Nat) (h : cfg.cacheEnabled = fal
       simp only [run, step, runRef]
       rw [ih _]
       congr 1
-      exact (renderTemplate_generic cfg st.fs _ (goodInv_nocache cfg st.fs h) fuel name cfg.baseCtx caller
+      exact (renderTemplate_generic cfg st.fs _ (goodInv_nocache cfg st.fs h) fuel false name cfg.baseCtx caller
         st.cache trivial).1
 
 /-- the checker that the driver runs on the implementation accepts every no-cache history -/
@@ -231,8 +231,8 @@ example : failedClause [.ok "1", .ok "2"] [.ok "1", .ok "1"] [.ok "1", .ok "2"] 
 
 /-! The reference does not look at `cache_enabled` at all. -/
 
-theorem refNodes_congr (cfg cfg' : Cfg) (sub sub' : Name → Ctx → Ctx → Outcome)
-    (ha : cfg'.allow = cfg.allow) (hm : cfg'.modules = cfg.modules) (hs : ∀ t b c, sub' t b c = sub t b c)
+theorem refNodes_congr (cfg cfg' : Cfg) (sub sub' : Bool → Name → Ctx → Ctx → Outcome)
+    (ha : cfg'.allow = cfg.allow) (hm : cfg'.modules = cfg.modules) (hs : ∀ o t b c, sub' o t b c = sub o t b c)
     (base caller : Ctx) (nodes : List Node) :
     refNodes cfg' sub' base caller nodes = refNodes cfg sub base caller nodes := by
   induction nodes with
@@ -241,13 +241,14 @@ theorem refNodes_congr (cfg cfg' : Cfg) (sub sub' : Name → Ctx → Ctx → Out
     cases n <;> simp only [refNodes, ih, hs, ha, hm]
 
 theorem renderRef_cacheEnabled (cfg : Cfg) (e : Bool) (fs : FS) :
-    ∀ (fuel : Nat) (name : Name) (base caller : Ctx),
-      renderRef { cfg with cacheEnabled := e } fs fuel name base caller = renderRef cfg fs fuel name base caller := by
+    ∀ (fuel : Nat) (opt : Bool) (name : Name) (base caller : Ctx),
+      renderRef { cfg with cacheEnabled := e } fs fuel opt name base caller =
+        renderRef cfg fs fuel opt name base caller := by
   intro fuel
   induction fuel with
-  | zero => intro name base caller; rfl
+  | zero => intro opt name base caller; rfl
   | succ fuel ih =>
-    intro name base caller
+    intro opt name base caller
     simp only [renderRef]
     have hs : getSource { cfg with cacheEnabled := e } fs name = getSource cfg fs name := rfl
     rw [hs]
@@ -255,7 +256,7 @@ theorem renderRef_cacheEnabled (cfg : Cfg) (e : Bool) (fs : FS) :
     | error err => rfl
     | ok t =>
       show refNodes _ _ base caller t = refNodes _ _ base caller t
-      exact refNodes_congr cfg { cfg with cacheEnabled := e } _ _ rfl rfl (fun t' b c => ih _ b c) base caller t
+      exact refNodes_congr cfg { cfg with cacheEnabled := e } _ _ rfl rfl (fun o t' b c => ih o _ b c) base caller t
 
 theorem runRef_cacheEnabled (cfg : Cfg) (e : Bool) (fuel : Nat) (ops : List Op) :
     ∀ fs : FS, runRef { cfg with cacheEnabled := e } fuel fs ops = runRef cfg fuel fs ops := by
@@ -269,7 +270,7 @@ theorem runRef_cacheEnabled (cfg : Cfg) (e : Bool) (fuel : Nat) (ops : List Op) 
     | render name caller =>
       simp only [runRef, ih fs]
       congr 1
-      exact renderRef_cacheEnabled cfg e fs fuel name cfg.baseCtx caller
+      exact renderRef_cacheEnabled cfg e fs fuel false name cfg.baseCtx caller
 
 /-- **The cache setting never changes an outcome**: under the stamp contract a history produces the
 same outputs and the same errors whether `cache_enabled` is on or off. -/
@@ -279,6 +280,128 @@ theorem cache_setting_irrelevant (cfg : Cfg) (e : Bool) (fuel : Nat) (ops : List
   have hv' : Valid { cfg with cacheEnabled := e } b st := ⟨hv.fsBelow, hv.cacheBelow, hv.coh⟩
   rw [history_matches_ref _ fuel ops b st hv' hf, history_matches_ref cfg fuel ops b st hv hf,
     runRef_cacheEnabled]
+
+/-! ### `{% include "name" ignore missing %}` -/
+
+theorem map_empty_append (o : Outcome) : o.map (fun x => "" ++ x) = o := by
+  cases o with
+  | error e => rfl
+  | ok s => simp [Except.map]
+
+/-- only `TemplateNotFound` is swallowed, and only under `ignore missing` -/
+theorem onGetError_spec (opt : Bool) (e : Err) :
+    onGetError opt e = if opt = true ∧ e = .notFound then .ok "" else .error e := by
+  cases opt <;> cases e <;> rfl
+
+/-- **Meaning of `{% include "t" ignore missing %}` in the body of the template `parent`, for every
+configuration, every engine state (cache) `c` and every file tree.** Let `g` be the engine's
+`get_template` of the joined name.
+(1) If `g` fails with `TemplateNotFound` the node writes nothing and the body goes on with the rest
+    (the cache is what `get_template` left).
+(2) In every other case — the template is there, or `get_template` fails differently
+    (`NotADirectoryError`) — the node is exactly the plain `{% include "t" %}`: in particular every
+    error raised while rendering the included template (a missing plain include inside it, …)
+    propagates. -/
+theorem inclOpt_meaning (cfg : Cfg) (fs : FS) (fuel : Nat) (parent t : Name) (ctx : Ctx) (c : Cache)
+    (rest : List Node) :
+    let sub := fun (o : Bool) (t' : Name) (ctx' : Ctx) (c'' : Cache) =>
+      renderTemplate cfg fs (fuel + 1) o (joinPath cfg.relative t' parent) ctx' c''
+    let g := getTemplate cfg fs c (joinPath cfg.relative t parent)
+    (g.1 = .error .notFound →
+      renderNodes cfg sub ctx (.inclOpt t :: rest) c = renderNodes cfg sub ctx rest g.2) ∧
+    (g.1 ≠ .error .notFound →
+      renderNodes cfg sub ctx (.inclOpt t :: rest) c = renderNodes cfg sub ctx (.incl t :: rest) c) := by
+  intro sub g
+  rcases hg : getTemplate cfg fs c (joinPath cfg.relative t parent) with ⟨r, c'⟩
+  have hg' : g = (r, c') := hg
+  rw [hg']
+  constructor
+  · intro h
+    simp only at h
+    subst h
+    have hs : sub true t ctx c = (.ok "", c') := by
+      simp only [sub, renderTemplate, hg, onGetError]
+    simp only [renderNodes, hs, map_empty_append]
+  · intro h
+    have hs : sub true t ctx c = sub false t ctx c := by
+      simp only [sub, renderTemplate, hg]
+      cases r with
+      | ok tm => rfl
+      | error e =>
+        cases e with
+        | notFound => exact absurd rfl h
+        | _ => rfl
+    simp only [renderNodes, hs]
+
+/-- the singleton form: the whole body is the optional include -/
+theorem inclOpt_alone (cfg : Cfg) (fs : FS) (fuel : Nat) (parent t : Name) (ctx : Ctx) (c : Cache) :
+    let sub := fun (o : Bool) (t' : Name) (ctx' : Ctx) (c'' : Cache) =>
+      renderTemplate cfg fs (fuel + 1) o (joinPath cfg.relative t' parent) ctx' c''
+    let g := getTemplate cfg fs c (joinPath cfg.relative t parent)
+    (g.1 = .error .notFound → renderNodes cfg sub ctx [.inclOpt t] c = (.ok "", g.2)) ∧
+    (g.1 ≠ .error .notFound → renderNodes cfg sub ctx [.inclOpt t] c = renderNodes cfg sub ctx [.incl t] c) := by
+  intro sub g
+  exact ⟨fun h => by rw [(inclOpt_meaning cfg fs fuel parent t ctx c []).1 h]; rfl,
+    (inclOpt_meaning cfg fs fuel parent t ctx c []).2⟩
+
+/-- the same on the specification side, where there is no engine state: what decides is whether the
+FILE the joined name denotes is there now. Together with `history_transparent` this is what a
+long-lived engine shows at every point of every history: the optional include of a file that has
+been deleted in the meantime renders as nothing, of a file that has been (re-)created as that file. -/
+theorem inclOpt_ref (cfg : Cfg) (fs : FS) (fuel : Nat) (parent t : Name) (base caller : Ctx) (rest : List Node) :
+    let sub := fun (o : Bool) (t' : Name) (b cl : Ctx) =>
+      renderRef cfg fs (fuel + 1) o (joinPath cfg.relative t' parent) b cl
+    let src := getSource cfg fs (joinPath cfg.relative t parent)
+    (src = .notFound →
+      refNodes cfg sub base caller (.inclOpt t :: rest) = refNodes cfg sub base caller rest) ∧
+    (src ≠ .notFound →
+      refNodes cfg sub base caller (.inclOpt t :: rest) = refNodes cfg sub base caller (.incl t :: rest)) := by
+  intro sub src
+  constructor
+  · intro h
+    have hs : sub true t base caller = .ok "" := by
+      simp only [sub, renderRef]
+      rw [show getSource cfg fs (joinPath cfg.relative t parent) = .notFound from h]
+      rfl
+    simp only [refNodes, hs, map_empty_append]
+  · intro h
+    have hs : sub true t base caller = sub false t base caller := by
+      simp only [sub, renderRef]
+      cases hsrc : getSource cfg fs (joinPath cfg.relative t parent) with
+      | found tm st => rfl
+      | notFound => exact absurd hsrc h
+      | notADir => rfl
+    simp only [refNodes, hs]
+
+/-- the situations the harness generates, on the model: the optionally included file is there, is
+deleted between two renders of the same engine, is created again (all four loader kinds) -/
+example :
+    let cfg : Option Path → Bool → Cfg := fun root ce =>
+      { root := root, cwd := ["r"], cacheEnabled := ce, relative := true, baseCtx := [], allow := [], modules := [] }
+    let ops : List Op := [.write ["r", "a"] [.text "A", .inclOpt ["o"], .text "Z"] 0, .render ["a"] [],
+      .write ["r", "o"] [.text "1"] 1, .render ["a"] [], .delete ["r", "o"], .render ["a"] [],
+      .write ["r", "o"] [.text "2"] 2, .render ["a"] []]
+    let expected : List Obs := [.ok "AZ", .ok "A1Z", .ok "AZ", .ok "A2Z"]
+    (run (cfg none true) 3 { fs := FS.empty, cache := Cache.empty } ops).map toObs = expected ∧
+    (run (cfg none false) 3 { fs := FS.empty, cache := Cache.empty } ops).map toObs = expected ∧
+    (run (cfg (some ["r"]) true) 3 { fs := FS.empty, cache := Cache.empty } ops).map toObs = expected ∧
+    (run (cfg (some ["r"]) false) 3 { fs := FS.empty, cache := Cache.empty } ops).map toObs = expected := by
+  decide +kernel
+
+/-- what is NOT swallowed: a missing plain include inside the optionally included file, and (without
+root_dir) a name below a regular file; with root_dir the latter is a `TemplateNotFound` of
+`FileSystemLoader` (`os.path.isfile` is false) and is swallowed -/
+example :
+    let cfg : Cfg := { root := none, cwd := ["r"], cacheEnabled := true, relative := true, baseCtx := [],
+                       allow := [], modules := [] }
+    let ops : List Op := [.write ["r", "a"] [.text "A", .inclOpt ["o"]] 0,
+      .write ["r", "o"] [.text "O", .incl ["nothere"]] 1, .render ["a"] [],
+      .write ["r", "b"] [.text "B", .inclOpt ["a", "x"]] 2, .render ["b"] []]
+    (run cfg 3 { fs := FS.empty, cache := Cache.empty } ops).map toObs =
+      [.err "FileNotFoundError", .err "NotADirectoryError"] ∧
+    (run { cfg with root := some ["r"] } 3 { fs := FS.empty, cache := Cache.empty } ops).map toObs =
+      [.err "FileNotFoundError", .ok "B"] := by
+  decide +kernel
 
 /-! ### includes resolve relative to the including template; root_dir confines -/
 
@@ -401,9 +524,9 @@ theorem refLookup_congr (base c1 c2 : Ctx) (h : ∀ x, base.lookup x = none → 
   | some v => rfl
   | none => simp only [h x hb]
 
-theorem refNodes_caller (cfg : Cfg) (sub : Name → Ctx → Ctx → Outcome) (base c1 c2 : Ctx)
+theorem refNodes_caller (cfg : Cfg) (sub : Bool → Name → Ctx → Ctx → Outcome) (base c1 c2 : Ctx)
     (h : ∀ x, base.lookup x = none → c1.lookup x = c2.lookup x)
-    (hs : ∀ t, sub t base c1 = sub t base c2) (nodes : List Node) :
+    (hs : ∀ o t, sub o t base c1 = sub o t base c2) (nodes : List Node) :
     refNodes cfg sub base c1 nodes = refNodes cfg sub base c2 nodes := by
   induction nodes with
   | nil => rfl
@@ -411,18 +534,18 @@ theorem refNodes_caller (cfg : Cfg) (sub : Name → Ctx → Ctx → Outcome) (ba
     cases n <;> simp only [refNodes, ih, hs, refLookup_congr base c1 c2 h]
 
 theorem renderRef_caller (cfg : Cfg) (fs : FS) :
-    ∀ (fuel : Nat) (name : Name) (base c1 c2 : Ctx),
+    ∀ (fuel : Nat) (opt : Bool) (name : Name) (base c1 c2 : Ctx),
       (∀ x, base.lookup x = none → c1.lookup x = c2.lookup x) →
-      renderRef cfg fs fuel name base c1 = renderRef cfg fs fuel name base c2 := by
+      renderRef cfg fs fuel opt name base c1 = renderRef cfg fs fuel opt name base c2 := by
   intro fuel
   induction fuel with
-  | zero => intro name base c1 c2 _; rfl
+  | zero => intro opt name base c1 c2 _; rfl
   | succ fuel ih =>
-    intro name base c1 c2 h
+    intro opt name base c1 c2 h
     simp only [renderRef]
     cases (getSource cfg fs name).toExcept with
     | error e => rfl
-    | ok t => exact refNodes_caller cfg _ base c1 c2 h (fun t' => ih _ base c1 c2 h) t
+    | ok t => exact refNodes_caller cfg _ base c1 c2 h (fun o t' => ih o _ base c1 c2 h) t
 
 /-- **Two callers that differ only on variables the configuration defines get the same output**
 (whole-render form of the precedence rule, through any depth of includes and imports). -/
@@ -431,9 +554,9 @@ theorem caller_only_where_unconfigured (cfg : Cfg) (fuel : Nat) (fs : FS) (c : C
     (h : ∀ x, cfg.baseCtx.lookup x = none → c1.lookup x = c2.lookup x) :
     (engineRender cfg fuel fs c name c1).1 = (engineRender cfg fuel fs c name c2).1 := by
   unfold engineRender
-  rw [(renderTemplate_generic cfg fs _ (goodInv_coh cfg fs) fuel name cfg.baseCtx c1 c hc).1,
-    (renderTemplate_generic cfg fs _ (goodInv_coh cfg fs) fuel name cfg.baseCtx c2 c hc).1]
-  exact renderRef_caller cfg fs fuel name cfg.baseCtx c1 c2 h
+  rw [(renderTemplate_generic cfg fs _ (goodInv_coh cfg fs) fuel false name cfg.baseCtx c1 c hc).1,
+    (renderTemplate_generic cfg fs _ (goodInv_coh cfg fs) fuel false name cfg.baseCtx c2 c hc).1]
+  exact renderRef_caller cfg fs fuel false name cfg.baseCtx c1 c2 h
 
 example : lookupVar (mergeCtx [("x", "cfg")] [("x", "caller"), ("y", "c")]) "x" = "cfg" := by decide
 example : lookupVar (mergeCtx [("x", "cfg")] [("x", "caller"), ("y", "c")]) "y" = "c" := by decide
